@@ -19,12 +19,22 @@ vars == <<l, bad, stats>>
 \* mcrew reserves the names of its services; the debugger host (cmd/mdb) has no services
 Reserved(host) == IF host = "mdb" THEN {} ELSE {"timers", "http", "ws"}
 
+\* The drivers describe a routing target as msg.tok (TLC cannot compare a string with a list):
+\*   <<"none">> absent, <<"other">> neither a string nor a list, <<"str", s>>, <<"list", m1, m2, ...>> with every member
+\*   that is not a string written "#nonstring".
+\* mcrew (as the single-loop crew): no target or an unintelligible one -> every machine; "*" -> every machine; a reserved
+\* name -> the service, no machine; an id -> that machine; a list -> the machines it names, each once.
+\* mdb (the debugger host, not one of the two crew hosts): a string is an id, anything else -> every machine.
+Members(tok) == {tok[i] : i \in 2..Len(tok)} \ {"#nonstring"}
 AddressedH(host, msg, ids) ==
-  IF "to" \notin DOMAIN msg THEN ids
-  ELSE IF msg.to \in Reserved(host) THEN {}
-  ELSE IF msg.to \in {"a", "b", "c", "nobody", "timers"} THEN {msg.to} \cap ids
+  LET tok == msg.tok IN
+  IF tok[1] \in {"none", "other"} THEN ids
+  ELSE IF tok[1] = "str" THEN
+       (IF host = "mcrew" /\ tok[2] = "*" THEN ids
+        ELSE IF tok[2] \in Reserved(host) THEN {}
+        ELSE {tok[2]} \cap ids)
+  ELSE IF host = "mcrew" THEN (Members(tok) \ Reserved(host)) \cap ids
   ELSE ids
-\* (a "to" that is not a string is recorded by the driver as "#nonstring": it is not a machine id, so: everyone)
 Host(c) == IF "host" \in DOMAIN c THEN c.host ELSE "mcrew"
 
 Flat(ss) == FoldLeft(LAMBDA acc, x : acc \o x, <<>>, ss)
@@ -48,12 +58,23 @@ Labels(c) ==
   \cup (IF \E k \in DOMAIN c.machines : k \notin DOMAIN c.logs \/ ~SameBagS(c.logs[k], Ids(ExpectedLog(c, k))) THEN {"machine-not-presented-exactly-once"} ELSE {})
   \cup (IF ~SameBagS(c.reported, Ids(Emitted(c))) THEN {"emission-not-reported-exactly-once"} ELSE {})
 
+\* Signature of the known finding F-C14-mcrew-emitted-dropped: in the burst scenario (a host whose Emitted channel is smaller
+\* than what one step emits) the only thing wrong is that exactly as many emissions were reported as the channel holds,
+\* each of them a real one, once.
+Sigs(c, labels) ==
+  IF /\ "burst" \in DOMAIN c /\ c.burst
+     /\ labels = {"emission-not-reported-exactly-once"}
+     /\ Len(c.reported) = c.emittedBuffer /\ Len(c.reported) < Len(Emitted(c))
+     /\ \A i \in DOMAIN c.reported : Cardinality({j \in DOMAIN c.reported : c.reported[j] = c.reported[i]}) = 1
+     /\ \A i \in DOMAIN c.reported : \E j \in DOMAIN Emitted(c) : Emitted(c)[j].m = c.reported[i]
+  THEN {"McrewEmittedChannelFull"} ELSE {}
+
 Init == l = 1 /\ bad = <<>> /\ stats = [histories |-> 0, processed |-> 0, emitted |-> 0]
 Next ==
   /\ l <= Len(Trace)
   /\ l' = l + 1
   /\ LET c == Trace[l] a == Labels(c) IN
-     /\ bad' = (IF a = {} THEN bad ELSE Append(bad, [id |-> c.id, line |-> l, c14 |-> a, sigs |-> {}]))
+     /\ bad' = (IF a = {} THEN bad ELSE Append(bad, [id |-> c.id, line |-> l, c14 |-> a, sigs |-> Sigs(c, a)]))
      /\ stats' = [histories |-> stats.histories + 1, processed |-> stats.processed + Len(c.processed), emitted |-> stats.emitted + Len(c.reported)]
 Spec == Init /\ [][Next]_vars
 Done == (l = Len(Trace) + 1) =>
